@@ -1,6 +1,7 @@
 import Tv.GenAgg
 import Tv.Model.Basic
 import Tv.Spec.C04
+import Tv.Thm.C12GenA
 /-!
 # C08 — nulls are transparent to the aggregations regenerated from agg.rs
 
@@ -123,4 +124,27 @@ theorem vcorr_nulls (sqrt : Rat → Rat) (xs ys xs' ys' : List (Option Rat)) (mp
       fold_complete _ (fun (st : Nat × Rat × Rat × Rat × Rat × Rat) a b =>
           (st.1 + 1, st.2.1 + a, st.2.2.1 + a * a, st.2.2.2.1 + b, st.2.2.2.2.1 + b * b, st.2.2.2.2.2 + a * b))
         (fun st va vb => by obtain ⟨n, a, aa, b, bb, c⟩ := st; cases va <;> cases vb <;> rfl), h]
+/-! ## order statistics regenerated from tea-agg/src/vec_valid.rs -/
+
+/-- nulls are transparent to the regenerated `count_valid` -/
+theorem count_valid_nulls (xs ys : List (Option Rat)) (h : valid xs = valid ys) :
+    GenAgg.count_valid.run (fun x => x) xs = GenAgg.count_valid.run (fun x => x) ys := by
+  rw [C12GenA.count_valid_len, C12GenA.count_valid_len, h]
+
+/-- **nulls are transparent to the regenerated `vquantile`**: two series with the same non-null
+elements (nulls inserted or deleted anywhere) have the same `q`-quantile under every interpolation,
+whatever permutation std's selection produces -/
+theorem vquantile_nulls {S : C12.Std} (hS : S.Ok) (xs ys : List (Option Rat)) (q : Rat) (m : C12.QMethod)
+    (h0 : 0 ≤ q) (h1 : q ≤ 1) (h : valid xs = valid ys) :
+    GenQuant.vquantile.run S xs q m = GenQuant.vquantile.run S ys q m := by
+  have e : C12.Spec.quantile xs q (C12.toInterp m) = C12.Spec.quantile ys q (C12.toInterp m) := by
+    unfold C12.Spec.quantile C12.Spec.sortedValid
+    rw [h]
+  rw [C12GenA.vquantile_from_source hS xs q m h0 h1, C12GenA.vquantile_from_source hS ys q m h0 h1, e]
+
+/-- … and to the median -/
+theorem vmedian_nulls {S : C12.Std} (hS : S.Ok) (xs ys : List (Option Rat)) (h : valid xs = valid ys) :
+    GenQuant.vquantile.run S xs (1 / 2) .linear = GenQuant.vquantile.run S ys (1 / 2) .linear :=
+  vquantile_nulls hS xs ys (1 / 2) .linear (by norm_num) (by norm_num) h
+
 end Tv.C08Gen
